@@ -186,3 +186,43 @@ Proof.
   { eapply (round_intro (mkstream 1 0 [1]) (mkconn 1 65535 16384 100 2 true [] false) 1 10); try (unfold I32_MAX; cbn; lia). vm_compute. reflexivity. }
   apply rounds_O.
 Qed.
+
+(** 8. No lost wake-up.  The books plus the WRITABLE bit, driven by ANY list of
+    peer events (WINDOW_UPDATE, SETTINGS, other streams' turns), arrivals of
+    new body bytes from the other side of the stream, and event-loop turns (a
+    write pass runs iff WRITABLE is armed and strips it afterwards): at every
+    point, whenever bytes are queued and both windows are positive, WRITABLE is
+    armed, so the loop will run a write pass, and that pass strictly reduces
+    what is queued.  With theorem 7 this is the whole liveness argument up to
+    the delivery of armed events by epoll. *)
+Theorem no_lost_wakeup :
+  (forall evs s, wk_inv s -> wk_inv (fold_left (fun st e => fst (wstep true st e)) evs s)) /\
+  (forall s fuel, wk_inv s -> sendable (wb s) ->
+     armed s = true /\
+     forall s' fr, wstep true s (WLoop fuel) = (s', fr) ->
+       prepare fuel false (Z.min (b_sw (wb s)) (b_cw (wb s))) (b_mf (wb s)) (b_body (wb s)) [] <> None ->
+       (0 < fuel)%nat ->
+       sumz (b_body (wb s')) < sumz (b_body (wb s)) /\ 0 < sumz fr).
+Proof. split; [exact wrun_inv|exact wakeup_then_progress]. Qed.
+
+Example no_lost_wakeup_nonvacuous :
+  let s0 := mkwk (mkbooks 0 65535 0 16384 [] 0 0 65535 0 false) false in
+  wk_inv s0 /\
+  (let s := fold_left (fun st e => fst (wstep true st e)) [WData 5000; WLoop 10; WPeer (EWUstream 1000)] s0 in
+   armed s = true /\ b_sw (wb s) = 1000 /\ b_body (wb s) = [5000]).
+Proof.
+  split.
+  - unfold wk_inv, balanced, sendable, I32_MIN, I32_MAX. cbn. repeat split; try lia; try constructor.
+    all: intros (_ & H & _); contradiction.
+  - vm_compute. repeat split; reflexivity.
+Qed.
+
+(** the arming on credit arrival is what makes it true: a connection that would
+    not arm WRITABLE when a window crosses zero reaches a stalled state
+    (bytes queued, both windows positive, nothing will ever run) *)
+Example lost_wakeup_without_arming :
+  let s0 := mkwk (mkbooks 0 65535 0 16384 [] 0 0 65535 0 false) false in
+  let s := fold_left (fun st e => fst (wstep false st e)) [WData 5000; WLoop 10; WPeer (EWUstream 1000)] s0 in
+  b_body (wb s) = [5000] /\ 0 < b_sw (wb s) /\ 0 < b_cw (wb s) /\ armed s = false /\
+  fst (wstep false s (WLoop 10)) = s.
+Proof. vm_compute. repeat split; reflexivity. Qed.
